@@ -197,6 +197,29 @@ def signature(nodes):
     return [(repr(n.type), repr(n.unwrapped), n.var, n.cyclic) for n in nodes[:-1]] + [("<root>", repr(nodes[-1].unwrapped), nodes[-1].var, nodes[-1].cyclic)] if nodes else []
 
 
+ISSUER_SRC = """
+import dataclasses
+@dataclasses.dataclass
+class Decoy:
+    zz: str = "decoy"
+def order(graph, x):
+    return graph.static_order(x)
+"""
+
+
+def clashing_issuer(names):
+    """a module (with a file name, like any user module) that binds every given name to an unrelated class and calls
+    static_order from its own code: a reference that names its module must not be resolved where the caller lives"""
+    import types
+    m = types.ModuleType("c09_issuer")
+    m.__file__ = "/nonexistent/c09_issuer.py"
+    sys.modules[m.__name__] = m
+    exec(compile(ISSUER_SRC, m.__file__, "exec"), m.__dict__)  # noqa: S102
+    for n in names:
+        m.__dict__[n] = m.__dict__["Decoy"]
+    return m
+
+
 def check_program(spec, mat, col, case, nontrivial=False):
     T = mat.root
     tl.clear_all()
@@ -224,6 +247,9 @@ def check_program(spec, mat, col, case, nontrivial=False):
             qn = f"{mat.modname(named['mod'])}.{named['name']}"
             forms["string"] = lambda: graph.static_order(qn)
             forms["forwardref"] = lambda: graph.static_order(FR(named["name"], module=mat.modname(named["mod"])))
+            iss = clashing_issuer([n for (_m, n) in mat.classes] + [f"M{i}" for i in mat.modules])
+            forms["string@clash"] = lambda: iss.order(graph, qn)
+            forms["forwardref@clash"] = lambda: iss.order(graph, FR(named["name"], module=mat.modname(named["mod"])))
     elif "." not in mat.root_expr and "M0" not in mat.root_expr and "'" not in mat.root_expr and "Literal" not in mat.root_expr:
         # (only text every module can resolve: builtin names; the bare name `Literal` is bound by the program's modules only)
         forms["string"] = lambda: graph.static_order(mat.root_expr)
@@ -242,6 +268,8 @@ def check_program(spec, mat, col, case, nontrivial=False):
     for name, f in forms.items():
         col.ev()
         col.label(f"form:{name}")
+        if name.endswith("@clash"):
+            tl.clear_all()   # (static_order is memoised by its argument: the same text was just resolved from here)
         kf, nf = tl.call(f)
         if kf == "exc":
             col.violation("7-input-forms-agree", dict(case, form=name), f"[{name}] raised {tl.exc_name(nf)}: {nf}", bucket=f"{name}|{exc_bucket(nf)}")
@@ -370,14 +398,19 @@ def check_special(col):
         # 7 input forms of a class, nested classes included: module-qualified text, reference with / without a module
         base = signature(nodes)
         qn, mod = T.__qualname__, T.__module__
+        iss = clashing_issuer([qn.split(".")[0], "Item", "Outer", "Tree", "Account", "Transfer"])
         forms = {"string": lambda: graph.static_order(f"{mod}.{qn}"),
                  "forwardref": lambda: graph.static_order(FR(qn, module=mod)),
+                 "string@clash": lambda: iss.order(graph, f"{mod}.{qn}"),
+                 "forwardref@clash": lambda: iss.order(graph, FR(qn, module=mod)),
                  "second-call": lambda: graph.static_order(T),
                  "newtype": lambda: graph.static_order(typing.NewType("W_NT", T)),
                  "alias": lambda: graph.static_order(typing.TypeAliasType("W_AL", T))}
         for fname, f in forms.items():
             col.ev()
             col.label(f"form:{fname}")
+            if fname.endswith("@clash"):
+                tl.clear_all()
             kf, nf = tl.call(f)
             if kf == "exc":
                 col.violation("7-input-forms-agree", dict(case, form=fname), f"[{name}/{fname}] raised {tl.exc_name(nf)}: {nf}", bucket=f"special|{fname}|{exc_bucket(nf)}")
